@@ -8,9 +8,11 @@ import (
 	"fmt"
 	"io"
 	"math/rand"
+	"unsafe"
 
 	"github.com/cloudwego/gopkg/bufiox"
 	"github.com/cloudwego/gopkg/protocol/thrift"
+	"github.com/cloudwego/gopkg/protocol/thrift/base"
 
 	"verifharness/doubles"
 	"verifharness/drv"
@@ -66,10 +68,12 @@ const (
 	skReaderDec
 	skBufReaderDR
 	skSkipDecDR
+	skBufReaderBR
+	skSkipDecBR
 	nSkippers
 )
 
-var skipperNames = []string{"Binary.Skip", "BufferReader.Skip/NB", "SkipDecoder/NB", "BytesSkipDecoder", "ReaderSkipDecoder", "BufferReader.Skip/DefaultReader", "SkipDecoder/DefaultReader"}
+var skipperNames = []string{"Binary.Skip", "BufferReader.Skip/NB", "SkipDecoder/NB", "BytesSkipDecoder", "ReaderSkipDecoder", "BufferReader.Skip/DefaultReader", "SkipDecoder/DefaultReader", "BufferReader.Skip/BytesReader", "SkipDecoder/BytesReader"}
 
 // runSkipper runs one skipping facility on b (type t). For the stream-backed ones sched
 // selects the fragmentation; withData delivers io.EOF together with the last chunk.
@@ -242,6 +246,49 @@ func runSkipper(which int, b []byte, t byte, r *rand.Rand, sched int, withData b
 			dr.Release(nil)
 			return o
 		})
+	case skBufReaderBR:
+		// the library's own bytes-backed reader: everything there will ever be is in the slice, so nothing
+		// has to be buffered and every declared size can be judged
+		return guarded(func() skipOut {
+			rd := bufiox.NewBytesReader(b)
+			br := thrift.NewBufferReader(rd)
+			defer br.Recycle()
+			err := br.Skip(tt)
+			o := skipOut{ok: err == nil, n: rd.ReadLen(), err: err}
+			if err == nil {
+				if br.Readn() != int64(o.n) {
+					o.note = "Readn != ReadLen"
+				} else if o.n <= len(b) {
+					k := len(b) - o.n
+					if k > 64 {
+						k = 64
+					}
+					nx, e := rd.Next(k)
+					if e != nil || !bytes.Equal(nx, b[o.n:o.n+k]) {
+						o.note = fmt.Sprintf("bytes after the skipped value are not the next input bytes (err=%v)", e)
+					}
+				}
+			}
+			rd.Release(nil)
+			return o
+		})
+	case skSkipDecBR:
+		return guarded(func() skipOut {
+			rd := bufiox.NewBytesReader(b)
+			d := thrift.NewSkipDecoder(rd)
+			defer d.Release()
+			out, err := d.Next(tt)
+			o := skipOut{ok: err == nil, n: len(out), err: err}
+			if err == nil {
+				if len(out) > len(b) || !bytes.Equal(out, b[:len(out)]) {
+					o.note = "returned bytes differ from input prefix"
+				} else if rd.ReadLen() != len(out) {
+					o.note = fmt.Sprintf("ReadLen %d after a %d-byte value", rd.ReadLen(), len(out))
+				}
+			}
+			rd.Release(nil)
+			return o
+		})
 	}
 	panic("bad skipper")
 }
@@ -317,4 +364,96 @@ func hexOf(b []byte) string { return drv.FullHex(b) }
 func isFaultPanic(p interface{}) bool {
 	_, ok := san.IsFault(p)
 	return ok
+}
+
+// ---- inputs that live on a goroutine stack which moves while the library recurses ----
+
+// stackSkipResult is what stackSkip observed.
+type stackSkipResult struct {
+	n       int
+	err     error
+	panic   interface{}
+	onStack bool // the input really was on the goroutine stack (within 1 MiB of a local variable)
+}
+
+// stackSkip copies in (at most 1024 bytes) into a LOCAL array of a fresh goroutine, after burning pad small
+// frames so that the stack has to grow at a different recursion level of the library for every pad, and
+// calls Binary.Skip on it. Binary.Skip does not let its argument escape, so the array stays on the stack
+// and is moved with it. Nothing in this function may make buf escape (no interface conversions of it).
+func stackSkip(in []byte, t byte, pad int) stackSkipResult {
+	var res stackSkipResult
+	done := make(chan struct{})
+	go func() {
+		defer close(done)
+		defer func() {
+			if r := recover(); r != nil {
+				res.panic = r
+			}
+		}()
+		stackSkipRun(in, thrift.TType(t), pad, &res)
+	}()
+	<-done
+	return res
+}
+
+//go:noinline
+func stackSkipRun(in []byte, t thrift.TType, pad int, res *stackSkipResult) {
+	if pad > 0 {
+		var x [64]byte
+		x[pad%64] = byte(pad)
+		stackSkipRun(in, t, pad-1, res)
+		if x[pad%64] != byte(pad) {
+			panic("stack padding damaged")
+		}
+		return
+	}
+	var buf [1024]byte
+	var marker byte
+	l := copy(buf[:], in)
+	d := int64(uintptr(unsafe.Pointer(&buf[0]))) - int64(uintptr(unsafe.Pointer(&marker)))
+	res.onStack = d > -(1<<20) && d < 1<<20
+	res.n, res.err = thrift.Binary.Skip(buf[:l], t)
+}
+
+// stackFastRead is stackSkip for the shipped FastRead structs: which = 0 Base, 1 BaseResp, 2 ApplicationException.
+func stackFastRead(in []byte, which int, pad int) stackSkipResult {
+	var res stackSkipResult
+	done := make(chan struct{})
+	go func() {
+		defer close(done)
+		defer func() {
+			if r := recover(); r != nil {
+				res.panic = r
+			}
+		}()
+		stackFastReadRun(in, which, pad, &res)
+	}()
+	<-done
+	return res
+}
+
+//go:noinline
+func stackFastReadRun(in []byte, which int, pad int, res *stackSkipResult) {
+	if pad > 0 {
+		var x [64]byte
+		x[pad%64] = byte(pad)
+		stackFastReadRun(in, which, pad-1, res)
+		if x[pad%64] != byte(pad) {
+			panic("stack padding damaged")
+		}
+		return
+	}
+	var buf [1024]byte
+	var marker byte
+	l := copy(buf[:], in)
+	d := int64(uintptr(unsafe.Pointer(&buf[0]))) - int64(uintptr(unsafe.Pointer(&marker)))
+	res.onStack = d > -(1<<20) && d < 1<<20
+	switch which {
+	case 0:
+		res.n, res.err = base.NewBase().FastRead(buf[:l])
+	case 1:
+		res.n, res.err = base.NewBaseResp().FastRead(buf[:l])
+	default:
+		res.n, res.err = thrift.NewApplicationException(0, "").FastRead(buf[:l])
+	}
 }
